@@ -882,7 +882,7 @@ func init() {
 		Exec:      c13Exec,
 		Judge:     c13Judge,
 		Describe:  c13Describe,
-		QuickN:    3000,
+		QuickN:    3000*2,
 		ThoroughN: 150000,
 	})
 }
